@@ -13,6 +13,7 @@ import (
 	"time"
 
 	"golang.org/x/tools/go/ssa"
+	"golang.org/x/tools/go/ssa/ssautil"
 )
 
 type ruleFn func(c *Ctx)
@@ -42,6 +43,7 @@ func main() {
 	tags := flag.String("tags", "", "build tags")
 	list := flag.Bool("list", false, "list functions")
 	obls := flag.Bool("obls", false, "print every obligation (rule | key | status)")
+	writeBase := flag.Bool("write-baseline", false, "write <verif>/baseline_symbols.json from the current tree and exit")
 	flag.Parse()
 	if *tier == "" {
 		*tier = "quick"
@@ -72,10 +74,24 @@ func main() {
 		}
 	}
 
+	if !*writeBase {
+		baselinePath = filepath.Join(*verifDir, "baseline_symbols.json")
+	}
 	P, err := loadProg(*repo, *tags, nil)
 	if err != nil {
 		fmt.Printf("VIOLATION property=%s replay=%s\n  checker cannot see the program: %v\n", *prop, "none", err)
 		os.Exit(1)
+	}
+	if *writeBase {
+		if err := writeBaseline(P.SSA, ssautil.AllFunctions(P.SSA), filepath.Join(*verifDir, "baseline_symbols.json")); err != nil {
+			fmt.Println(err)
+			os.Exit(2)
+		}
+		fmt.Println("baseline written")
+		return
+	}
+	for _, n := range P.Renames {
+		fmt.Println("renamed symbol: " + n)
 	}
 	if *list {
 		for _, f := range P.AllFns {
@@ -108,6 +124,9 @@ func main() {
 	}
 	expl := spec.Explanation + " NOT DECIDED: " + spec.NotDecided
 	extra := map[string]interface{}{}
+	if len(P.Renames) > 0 {
+		extra["renamed_symbols"] = P.Renames
+	}
 	if *tier == "thorough" {
 		// (a) fault-injection build configuration
 		clearCaches()
